@@ -20,7 +20,7 @@ ASSUMPTIONS = ["faults are synchronous exceptions raised by user callables (the 
 EXHAUSTIVE = {"quick": True, "thorough": True}
 FLOORS = {"quick": {"crash_points": 1500, "faults_fired": 1500, "resumes_checked": 1400, "resets_checked": 1400, "site_stage": 300, "site_event": 200,
                     "site_callback": 30, "site_end_slope": 20, "site_fd_jacobian": 30, "site_newton": 30, "keyboard_interrupts": 100},
-          "thorough": {"crash_points": 12000, "faults_fired": 12000, "resumes_checked": 11000, "resets_checked": 11000, "site_stage": 3000, "site_event": 2000,
+          "thorough": {"crash_points": 12000, "faults_fired": 12000, "resumes_checked": 11000, "resets_checked": 11000, "site_stage": 1100, "site_event": 2000,
                        "site_callback": 300, "site_end_slope": 200, "site_fd_jacobian": 300, "site_newton": 300, "keyboard_interrupts": 800, "double_faults": 500}}
 CASE_TIMEOUT = 1500
 CHUNK = 24
